@@ -663,6 +663,7 @@ func (c *Ctx) checkInvariants(s *State, li loopInfo, kind string, pos token.Pos)
 	}
 	c.curLoop = li.ord
 	for i, inv := range li.spec.Invariants {
+		c.curTags = inv.Tags
 		g := c.cevalBool(inv.Expr, s, nil, pos)
 		c.oblige(s, fmt.Sprintf("%s:loop%d.%d", kind, li.ord, i+1), inv.Text, pos, g, inv.Tags)
 	}
@@ -674,7 +675,12 @@ func (c *Ctx) assumeInvariants(s *State, li loopInfo, pos token.Pos) {
 	}
 	c.curLoop = li.ord
 	for _, inv := range li.spec.Invariants {
-		s.assume(c.cevalBool(inv.Expr, s, nil, pos))
+		c.curTags = inv.Tags
+		nb := len(c.bindingErrors)
+		g := c.cevalBool(inv.Expr, s, nil, pos)
+		if len(c.bindingErrors) == nb {
+			s.assume(g) // a clause that does not bind is reported (contract-binding), not assumed false
+		}
 	}
 }
 
@@ -748,6 +754,7 @@ func (c *Ctx) loopCut(node ast.Stmt, pos token.Pos, s *State, li loopInfo, iter 
 		}
 		c.curLoop = li.ord
 		for i, sc := range li.spec.Steps {
+			c.curTags = sc.Tags
 			g := c.cevalBool(sc.Expr, st, nil, pos)
 			c.oblige(st, fmt.Sprintf("step-%s:loop%d.%d", what, li.ord, i+1), sc.Text, pos, g, sc.Tags)
 		}
@@ -777,6 +784,7 @@ func (c *Ctx) loopCut(node ast.Stmt, pos token.Pos, s *State, li loopInfo, iter 
 			if li.spec != nil {
 				for _, a := range li.spec.Asserts {
 					c.curLoop = li.ord
+					c.curTags = a.Tags
 					g := c.cevalBool(a.Expr, after, nil, pos)
 					c.oblige(after, fmt.Sprintf("exit-assert:loop%d", li.ord), a.Text, pos, g, a.Tags)
 					after.assume(g)
